@@ -154,3 +154,15 @@ func (e *Exec) capturedVal(o *types.Var) (Val, bool) {
 	}
 	return v, true
 }
+
+// isCaptured: v is a free variable of the function literal under contract (declared outside its body).
+func (e *Exec) isCaptured(v *types.Var) bool {
+	if len(e.frames) == 0 {
+		return false
+	}
+	lit, ok := e.frames[0].node.(*ast.FuncLit)
+	if !ok || !v.Pos().IsValid() {
+		return false
+	}
+	return v.Pos() < lit.Pos() || v.Pos() > lit.End()
+}
